@@ -3,7 +3,8 @@
 // Reads the sources of /repo and emits lean/CharonV/Generated/QbftConst.lean with
 //   - the factors of verifyMsgLimits (core/consensus/qbft/qbft.go), after checking that the
 //     function body has exactly the expected shape (`n > maxJust`, `n > maxValues`),
-//   - the ordered list of reject conditions of verifyMsg, printed from the AST,
+//   - the ordered list of reject conditions of verifyMsg, printed from the AST after canonical
+//     alpha-renaming of its parameters and locals (p0, p1, v0, v1, …: see alphaRename),
 //   - instance.RecvBufferSize, maxConsensusMsgSize, core.defaultAllowedFutureEpochs,
 //   - the bounds of qbft.MsgType.Valid and core.DutyType.Valid (after a shape check).
 //
@@ -39,7 +40,7 @@ type src struct {
 
 func load(path string) *src {
 	fset := token.NewFileSet()
-	f, err := parser.ParseFile(fset, path, nil, parser.SkipObjectResolution)
+	f, err := parser.ParseFile(fset, path, nil, 0) // with object resolution: alphaRename needs Ident.Obj
 	if err != nil {
 		fail("parse %s: %v", path, err)
 	}
@@ -133,6 +134,68 @@ func (s *src) funcDecl(recv, name string) *ast.FuncDecl {
 	return nil
 }
 
+var canonName = regexp.MustCompile(`^[rpov][0-9]+$`)
+
+// alphaRename renames, IN PLACE, every variable / constant declared inside fd to a canonical name:
+// receiver r0, parameters p0, p1, … by position, named results o0, …, locals v0, v1, … in the order of
+// their declaration in the source (every scope counts: two `typ :=` in two if-headers are v0 and v1).
+// Everything printed from fd afterwards is therefore independent of the names the author chose, while
+// two bodies that differ by more than a renaming still print differently (the renaming is injective;
+// an identifier that is not declared in fd and already looks canonical makes the tool fail closed).
+func (s *src) alphaRename(fd *ast.FuncDecl) {
+	names := map[*ast.Object]string{}
+	fields := func(fl *ast.FieldList, prefix string) {
+		if fl == nil {
+			return
+		}
+		i := 0
+		for _, f := range fl.List {
+			if len(f.Names) == 0 {
+				i++
+			}
+			for _, id := range f.Names {
+				if id.Name != "_" && id.Obj != nil {
+					names[id.Obj] = fmt.Sprintf("%s%d", prefix, i)
+				}
+				i++
+			}
+		}
+	}
+	fields(fd.Recv, "r")
+	fields(fd.Type.Params, "p")
+	fields(fd.Type.Results, "o")
+	nv := 0
+	ast.Inspect(fd.Body, func(n ast.Node) bool {
+		id, ok := n.(*ast.Ident)
+		if !ok || id.Obj == nil || id.Name == "_" {
+			return true
+		}
+		if id.Obj.Kind != ast.Var && id.Obj.Kind != ast.Con {
+			return true
+		}
+		if p := id.Obj.Pos(); p < fd.Pos() || p >= fd.End() {
+			return true // package-level object
+		}
+		if _, ok := names[id.Obj]; !ok {
+			names[id.Obj] = fmt.Sprintf("v%d", nv)
+			nv++
+		}
+		return true
+	})
+	ast.Inspect(fd, func(n ast.Node) bool {
+		id, ok := n.(*ast.Ident)
+		if !ok {
+			return true
+		}
+		if nn, ok := names[id.Obj]; ok && id.Obj != nil {
+			id.Name = nn
+		} else if canonName.MatchString(id.Name) {
+			fail("%s: %s: identifier `%s` clashes with the canonical names", s.path, fd.Name.Name, id.Name)
+		}
+		return true
+	})
+}
+
 // singleReturn returns the printed expression of a body consisting of one return statement.
 func (s *src) singleReturn(fd *ast.FuncDecl) string {
 	if len(fd.Body.List) != 1 {
@@ -177,7 +240,8 @@ func main() {
 	// ---- verifyMsgLimits -------------------------------------------------------------------
 	q := load(filepath.Join(*repo, "core/consensus/qbft/qbft.go"))
 	lim := q.funcDecl("", "verifyMsgLimits")
-	if got := q.print(lim.Type); got != "func(pbMsg *pbv1.QBFTConsensusMsg, nodes int) error" {
+	q.alphaRename(lim)
+	if got := q.print(lim.Type); got != "func(p0 *pbv1.QBFTConsensusMsg, p1 int) error" {
 		fail("verifyMsgLimits: unexpected signature %s", got)
 	}
 	var shape []string
@@ -197,10 +261,11 @@ func main() {
 		}
 	}
 	re := []*regexp.Regexp{
-		regexp.MustCompile(`^maxJust := (\d+) \* nodes$`),
-		regexp.MustCompile(`^if n := len\(pbMsg\.GetJustification\(\)\); n > maxJust \{ return err \}$`),
-		regexp.MustCompile(`^maxValues := (\d+) \* \(len\(pbMsg\.GetJustification\(\)\) \+ (\d+)\)$`),
-		regexp.MustCompile(`^if n := len\(pbMsg\.GetValues\(\)\); n > maxValues \{ return err \}$`),
+		// canonical names: p0 = the message, p1 = the node count, v0 = maxJust, v1 / v3 = n, v2 = maxValues
+		regexp.MustCompile(`^v0 := (\d+) \* p1$`),
+		regexp.MustCompile(`^if v1 := len\(p0\.GetJustification\(\)\); v1 > v0 \{ return err \}$`),
+		regexp.MustCompile(`^v2 := (\d+) \* \(len\(p0\.GetJustification\(\)\) \+ (\d+)\)$`),
+		regexp.MustCompile(`^if v3 := len\(p0\.GetValues\(\)\); v3 > v2 \{ return err \}$`),
 		regexp.MustCompile(`^return nil$`),
 	}
 	if len(shape) != len(re) {
@@ -225,6 +290,7 @@ func main() {
 
 	// ---- verifyMsg: ordered reject conditions ------------------------------------------------
 	vm := q.funcDecl("", "verifyMsg")
+	q.alphaRename(vm)
 	var conds []string
 	for i, st := range vm.Body.List {
 		switch x := st.(type) {
@@ -253,13 +319,17 @@ func main() {
 
 	// ---- MsgType.Valid / DutyType.Valid ------------------------------------------------------
 	cq := load(filepath.Join(*repo, "core/qbft/qbft.go"))
-	if got := cq.singleReturn(cq.funcDecl("MsgType", "Valid")); got != "t > MsgUnknown && t < msgSentinel" {
+	mv := cq.funcDecl("MsgType", "Valid")
+	cq.alphaRename(mv)
+	if got := cq.singleReturn(mv); got != "r0 > MsgUnknown && r0 < msgSentinel" {
 		fail("MsgType.Valid: unexpected body %s", got)
 	}
 	msgUnknown, msgSentinel := cq.constInt("MsgUnknown"), cq.constInt("msgSentinel")
 
 	ct := load(filepath.Join(*repo, "core/types.go"))
-	if got := ct.singleReturn(ct.funcDecl("DutyType", "Valid")); got != "d > DutyUnknown && d < dutySentinel" {
+	dv := ct.funcDecl("DutyType", "Valid")
+	ct.alphaRename(dv)
+	if got := ct.singleReturn(dv); got != "r0 > DutyUnknown && r0 < dutySentinel" {
 		fail("DutyType.Valid: unexpected body %s", got)
 	}
 	dutyUnknown, dutySentinel := ct.constInt("DutyUnknown"), ct.constInt("dutySentinel")
@@ -281,7 +351,7 @@ func main() {
 	fmt.Fprintf(&b, "/-- `core.defaultAllowedFutureEpochs` -/\ndef allowedFutureEpochs : Nat := %d\n", allowed)
 	fmt.Fprintf(&b, "/-- `MsgType.Valid`: `t > %d && t < %d` -/\ndef msgTypeLo : Int := %d\ndef msgTypeHi : Int := %d\n", msgUnknown, msgSentinel, msgUnknown, msgSentinel)
 	fmt.Fprintf(&b, "/-- `DutyType.Valid`: `d > %d && d < %d` -/\ndef dutyTypeLo : Int := %d\ndef dutyTypeHi : Int := %d\n", dutyUnknown, dutySentinel, dutyUnknown, dutySentinel)
-	b.WriteString("/-- the statements of `verifyMsg` in source order (if-headers, assignments, final return). -/\ndef verifyMsgShape : List String := [\n")
+	b.WriteString("/-- the statements of `verifyMsg` in source order (if-headers, assignments, final return), parameters\nrenamed p0, p1 by position and locals v0, v1, … in order of declaration. -/\ndef verifyMsgShape : List String := [\n")
 	for i, c := range conds {
 		sep := ","
 		if i == len(conds)-1 {
